@@ -15,13 +15,17 @@ int main(void) {
             size_t n; unsigned char *raw = zh_unhex(hex, &n);
             int fd = zh_memfd(raw, n); free(raw);
             zckCtx *zck = zck_create();
-            zck_init_adv_read(zck, fd);
+            /* op 'I' = zck_init_adv_read at that point of the sequence (a fresh context is in read mode already, so the pin
+               options may legally be set first); without it the context is initialised before everything else */
+            int inited = strstr(ops, "I") == NULL || strcmp(ops, "-") == 0;
+            if(inited) zck_init_adv_read(zck, fd);
             char res[256]; int nres = 0;
             if(strcmp(ops, "-")) {
                 char *save = NULL;
                 for(char *o = strtok_r(ops, ",", &save); o; o = strtok_r(NULL, ",", &save)) {
                     int r;
                     if(o[0] == 't') r = zck_set_ioption(zck, ZCK_VAL_HEADER_HASH_TYPE, atoll(o + 1));
+                    else if(o[0] == 'I') { r = zck_init_adv_read(zck, fd); inited = 1; }
                     else if(o[0] == 'e') r = zck_clear_error(zck);
                     else if(o[0] == 'v') r = zck_validate_lead(zck);
                     else if(o[0] == 'F') {   /* the file changes under the context (a partial download replaced by another file) */
